@@ -28,6 +28,7 @@ type C11TransportCase struct {
 	Chunks  [][]byte `json:"chunks"`
 	Session bool     `json:"session"` // a session is attached (otherwise the bare handler)
 	Logon   bool     `json:"logon"`   // a valid Logon precedes the hostile bytes
+	Role    string   `json:"role,omitempty"` // "" / "acceptor": the bytes reach an Acceptor; "initiator": an Initiator
 }
 
 func genHostileChunk(t *rapid.T) []byte {
@@ -60,7 +61,8 @@ func genHostileChunk(t *rapid.T) []byte {
 }
 
 func genC11Transport(t *rapid.T) *C11TransportCase {
-	c := &C11TransportCase{Session: rapid.Bool().Draw(t, "session"), Logon: rapid.Bool().Draw(t, "logon")}
+	c := &C11TransportCase{Session: rapid.Bool().Draw(t, "session"), Logon: rapid.Bool().Draw(t, "logon"),
+		Role: rapid.SampledFrom([]string{"acceptor", "acceptor", "initiator"}).Draw(t, "role")}
 	for i := rapid.IntRange(1, 10).Draw(t, "nChunks"); i > 0; i-- {
 		c.Chunks = append(c.Chunks, genHostileChunk(t))
 	}
@@ -73,19 +75,37 @@ func checkC11Transport(c *C11TransportCase, rec *evid.Rec) (vs []pbt.Violation) 
 	defer done()
 	defer pbt.ClearRecord()
 	delivered := 0
+	served := true
 	_, trouble := rig.Bubble(outerT, func() {
 		store := memory.NewStorage()
-		cfg := rig.Cfg{Role: "acceptor", HBMin: 1, HBMax: 60, Methods: []string{"0"}, Approve: "all", CloseTimeoutMs: 100, Buf: 1}
-		ar := rig.StartAcceptor(1, time.Minute, func(h simplefixgo.AcceptorHandler) {
-			h.HandleIncoming(simplefixgo.AllMsgTypes, func([]byte) bool { delivered++; return true })
+		cfg := rig.Cfg{Role: "acceptor", HBMin: 1, HBMax: 60, HBInt: 30, Methods: []string{"0"}, Approve: "all", CloseTimeoutMs: 100, Buf: 1,
+			Sender: "LIB", Target: "PEER", User: "alice", Pass: "secret"}
+		var conn *netsim.Conn
+		var ar *rig.AcceptorRig
+		var ir *rig.InitiatorRig
+		if c.Role == "initiator" {
+			cfg.Role = "initiator"
+			ir = rig.NewInitiatorRig(1, time.Minute)
+			conn = ir.C
+			ir.H.HandleIncoming(simplefixgo.AllMsgTypes, func([]byte) bool { delivered++; return true })
+			ir.Serve()
 			if c.Session {
-				if _, err := rig.AcceptorSession(cfg, h, store, store); err != nil {
+				if _, err := rig.InitiatorSession(cfg, ir.H, store, store); err != nil {
 					panic(err)
 				}
 			}
-		})
-		conn := netsim.NewConn("c")
-		ar.L.Connect(conn)
+		} else {
+			ar = rig.StartAcceptor(1, time.Minute, func(h simplefixgo.AcceptorHandler) {
+				h.HandleIncoming(simplefixgo.AllMsgTypes, func([]byte) bool { delivered++; return true })
+				if c.Session {
+					if _, err := rig.AcceptorSession(cfg, h, store, store); err != nil {
+						panic(err)
+					}
+				}
+			})
+			conn = netsim.NewConn("c")
+			ar.L.Connect(conn)
+		}
 		synctest.Wait()
 		if c.Logon {
 			conn.Feed((&rig.InMsg{Type: rig.TLogon, Seq: "1", Fields: []rig.Tok{rig.F(rig.TagEncryptMethod, "0"), rig.F(rig.TagHeartBtInt, "30")}}).Bytes())
@@ -97,8 +117,21 @@ func checkC11Transport(c *C11TransportCase, rec *evid.Rec) (vs []pbt.Violation) 
 		}
 		conn.PeerClose()
 		synctest.Wait()
-		ar.A.Close()
-		time.Sleep(rig.Settle(30))
+		if ar != nil {
+			ar.A.Close()
+			time.Sleep(rig.Settle(30))
+			served = ar.Returned()
+		} else {
+			// the peer has closed: the initiator's serving call must come back by itself
+			time.Sleep(rig.Settle(30))
+			synctest.Wait()
+			served = ir.Returned()
+			if !served {
+				ir.I.Close()
+				ir.H.Stop()
+				time.Sleep(rig.Settle(30))
+			}
+		}
 	})
 	if trouble != "" {
 		return []pbt.Violation{pbt.V("harness", "%s", trouble)}
@@ -115,6 +148,14 @@ func checkC11Transport(c *C11TransportCase, rec *evid.Rec) (vs []pbt.Violation) 
 	}
 	if delivered > 0 {
 		rec.Hist("transport:message-reached-handler")
+	}
+	rec.Hist("transport:role:" + map[bool]string{true: "initiator", false: "acceptor"}[c.Role == "initiator"])
+	if !served {
+		var s []string
+		for _, ch := range c.Chunks {
+			s = append(s, ref.Show(ch))
+		}
+		return []pbt.Violation{pbt.V("transport:inbound-path-stuck:"+c.Role, "after these bytes and the peer's close the serving call of the %s never returned: %v", c.Role, s)}
 	}
 	if rec.WantSample() && len(c.Chunks) >= 3 {
 		var s []string
